@@ -213,20 +213,16 @@ impl FeelType {
     if self.is_conformant_value(actual_value) {
       return actual_value.clone();
     }
-    match self {
-      // to singleton list
-      FeelType::List(target_type) => {
-        if target_type.is_conformant_value(actual_value) {
-          return Value::List(Values::new(vec![actual_value.clone()]));
-        }
+    // to singleton list
+    if let FeelType::List(target_type) = self {
+      if target_type.is_conformant_value(actual_value) {
+        return Value::List(Values::new(vec![actual_value.clone()]));
       }
-      // from singleton list
-      target_type => {
-        if let Value::List(values) = actual_value {
-          if values.len() == 1 && target_type.is_conformant_value(&values.as_vec()[0]) {
-            return values.as_vec()[0].clone();
-          }
-        }
+    }
+    // from singleton list (the target type may be a list type itself)
+    if let Value::List(values) = actual_value {
+      if values.len() == 1 && self.is_conformant_value(&values.as_vec()[0]) {
+        return values.as_vec()[0].clone();
       }
     }
     value_null!()
